@@ -363,6 +363,9 @@ func (h *hintMgr) dump(chunkID, splitID int) (err error) {
 	sp.file, err = sp.buf.Dump(path)
 	if err == nil {
 		h.maxDumpedHintID.setIfLarger(chunkID, splitID)
+		if utils.VerifOn {
+			utils.Verif("h.dump", h.bucketID, chunkID, splitID, sp.file.numKey, sp.file.datasize)
+		}
 	}
 	sp.buf = nil
 	return nil
@@ -463,6 +466,10 @@ func (h *hintMgr) Merge(forGC bool) (err error) {
 	h.mergeLock.Lock()
 	h.state |= HintStateMerge
 	st := time.Now()
+	if utils.VerifOn {
+		utils.Verif("m.begin", h.bucketID, forGC)
+		defer utils.Verif("m.end", h.bucketID, forGC)
+	}
 	defer func() {
 		h.state &= ^HintStateMerge
 		h.mergeLock.Unlock()
@@ -520,6 +527,9 @@ func (h *hintMgr) set(ki *KeyInfo, meta *Meta, pos Position, recSize uint32, rea
 
 func (h *hintMgr) setItem(it *HintItem, chunkID int, recSize uint32) (rotated bool) {
 	rotated = h.chunks[chunkID].setItem(it, recSize)
+	if utils.VerifOn {
+		utils.Verif("hint.set", h.bucketID, chunkID, it.Key, it.Pos.Offset, it.Ver, it.Vhash, rotated, len(h.chunks[chunkID].splits))
+	}
 	if rotated {
 		if mergeChan != nil && chunkID >= h.maxChunkID {
 			select {
@@ -698,6 +708,9 @@ func (hm *hintMgr) loadHintsByChunk(chunkID int) (datasize uint32) {
 }
 
 func (h *hintMgr) ClearChunk(chunkID int) {
+	if utils.VerifOn {
+		utils.Verif("g.clearhints", h.bucketID, chunkID)
+	}
 	h.chunks[chunkID] = newHintChunk(chunkID)
 	h.RemoveHintfilesByChunk(chunkID)
 }
